@@ -145,7 +145,7 @@ def _has_unsorted_children(case) -> bool:
 
 
 def reuse_strategy(tier):
-    return st.fixed_dictionaries({"root": st.sampled_from(["module", "dfg", "custom"]), "mut": st.one_of(store.reuse_mutations(30 if tier == "quick" else 50), store.holes_mutations())})
+    return st.fixed_dictionaries({"root": st.sampled_from(["module", "dfg", "custom"]), "mut": st.one_of(store.reuse_mutations(30 if tier == "quick" else 50), store.holes_mutations(), store.burst_mutations())})
 
 
 def order_strategy(tier):
